@@ -53,6 +53,7 @@ type retInfo struct {
 }
 
 type localAlloc struct {
+	tracked bool // escape sites known: private until one of them executes
 	ref     TV
 	ty      types.Type // pointee type
 	escaped bool
@@ -90,6 +91,7 @@ type frame struct {
 	variant0    map[*ssa.BasicBlock]string
 	caller      *frame
 	boundDepth  int
+	escSites    map[ssa.Instruction][]string
 	fvBind      map[*ssa.FreeVar]TV
 	csUsed      map[*CallsiteC]bool
 	noInvAssume bool // >0 while translating under a binder (quantifier, spec definition)
@@ -806,4 +808,20 @@ func nodeText(fset *token.FileSet, n ast.Node) string {
 		return ""
 	}
 	return normText(b.String())
+}
+
+func (f *frame) topFrame() *frame {
+	t := f
+	for t.caller != nil {
+		t = t.caller
+	}
+	return t
+}
+
+// isPrivate: the local object cannot have been touched by other code yet.
+func (la *localAlloc) isPrivate(st *bstate) bool {
+	if !la.escaped {
+		return true
+	}
+	return la.tracked && !st.leaked[la.ref.T]
 }
